@@ -471,6 +471,50 @@ class Fingerprints(Harness):
         yield 'text-fingerprints', got == want_text
 
 
+class TruncatedBlob(Harness):
+    """a KEX reply whose RSA modulus field DECLARES more bytes than the blob holds (declared length symbolic, up to 2^32-1; only 16 bytes present): the probe must
+    not report the declared size - the reply is malformed (KexDHException) or, at most, the size of the bytes actually presented is recorded."""
+    prop, ob = PROP, 'O1'
+    width = 64
+
+    def __init__(self, where):
+        self.where = where
+        self.name = 'truncatedblob-%s' % where
+
+    def params(self):
+        return {'where': self.where}
+
+    def inputs(self):
+        d = zx.fresh_int('declared', 17, 0xFFFFFFFF)
+        return {'declared': d}
+
+    def run(self, M, inp):
+        n16 = b'\x00\x80' + b'\x00' * 13 + b'\x01'
+        dl = inp['declared']
+        lenfield = AE.u32(dl) if isinstance(dl, int) else zx.shims.z_bytes([(dl >> 24) & 0xFF, (dl >> 16) & 0xFF, (dl >> 8) & 0xFF, dl & 0xFF])
+        if self.where == 'modulus':
+            blob = S(b'ssh-rsa') + S(b'\x01\x00\x01') + lenfield + n16
+        else:   # the host-key field of the reply itself declares more than the packet holds
+            blob = None
+        if blob is not None:
+            payload = S(blob) + S(b'f' * 5) + S(b'sig')
+        else:
+            inner = S(b'ssh-rsa') + S(b'\x01\x00\x01') + S(n16)
+            payload = lenfield + inner
+        out = M.outputbuffer.OutputBuffer()
+        k = M.kexdh.KexDH(out, 'x', 'sha256', 0, 0)
+        r = guarded(k.recv_reply, FakeSockRW([(31, payload)]), True)
+        if isinstance(r, Exc):
+            return {'exc': r}
+        return {'size': k.get_hostkey_size()}
+
+    def check(self, inp, obs):
+        if 'exc' in obs:
+            yield 'only-KexDHException', obs['exc'].type == 'KexDHException'
+            return
+        yield 'declared-but-absent-bytes-are-not-reported-as-key-size', obs['size'] <= 128
+
+
 class AuditHostKey(Harness):
     """the whole real audit() of a server whose host-key probe is answered with a well-formed reply carrying an RSA key of b bits (first connection: KEXINIT with a
     symbolic unknown cipher riding along; probe connection: banner, KEXINIT, KEX reply): the JSON document reports b as the key size for the advertised RSA names,
@@ -565,6 +609,8 @@ def tasks(tier):
     for kt, ca in [('ssh-rsa', ''), ('rsa-sha2-512', ''), ('ssh-ed25519', ''), ('ssh-rsa-cert-v01@openssh.com', 'ssh-rsa'), ('rsa-sha2-512-cert-v01@openssh.com', 'ssh-rsa'), ('rsa-sha2-256-cert-v01@openssh.com', 'ssh-ed25519'), ('ssh-rsa-cert-v01@openssh.com', 'ssh-ed25519'),
                    ('ssh-ed25519-cert-v01@openssh.com', 'ssh-rsa'), ('ssh-ed25519-cert-v01@openssh.com', 'ecdsa-sha2-nistp256')]:
         T.append(Reporting(kt, ca))
+    T.append(TruncatedBlob('modulus'))
+    T.append(TruncatedBlob('hostkey-field'))
     for bits in ((1024, 2048, 3072) if q else (1024, 1536, 2048, 3008, 3072, 4096, 8192)):
         for names in ((('ssh-rsa',), ('rsa-sha2-512', 'rsa-sha2-256', 'ssh-rsa')) if q else (('ssh-rsa',), ('rsa-sha2-256',), ('rsa-sha2-512', 'rsa-sha2-256', 'ssh-rsa'), ('ssh-rsa', 'rsa-sha2-512'))):
             T.append(AuditHostKey(bits, names))
@@ -575,6 +621,8 @@ def tasks(tier):
 
 
 def harness_by_name(name, params):
+    if name.split(':')[1].startswith('truncatedblob'):
+        return TruncatedBlob(params['where'])
     if name.split(':')[1].startswith('audithostkey'):
         return AuditHostKey(params['bits'], params['names'])
     k = name.split(':')[1].split('-')[0]
